@@ -139,7 +139,7 @@ PROPS['C19'] = dict(
     units=[('u_factory.rs', 'B', ['factory', 'asset', 'querier'])], min_tagged=14, trusted=FACTORY_TRUST,
     assumptions=['the order and completeness of cw_storage_plus::Map::range over the chain KV store is an assumed dependency contract (ascending byte order of the raw keys, ExclusiveRaw bound, every record once)',
                  'page size >= 1 (limit = Some(0) returns an empty page and a walk that stops on an empty page ends at once: degenerate, excluded)',
-                 'no registered key continues another registered key by a byte <= 0x01 (predicate no_ext01). With the key layout tag|len|first|tag|second this can only happen when two registered identifiers of the same kind differ by a suffix starting with 0x00 / 0x01: impossible for bank denoms ([a-zA-Z][a-zA-Z0-9/:._-]{2,127}) and for canonical addresses of one length. The hypothesis is explicit in lemma_c19_next_page, not hidden',
+                 'identifier hygiene (predicate ids_clean): no registered native denom contains a byte <= 0x01 (bank denoms are [a-zA-Z][a-zA-Z0-9/:._-]{2,127}) and all registered canonical token addresses have one common length. From this and registry well-formedness lemma_no_ext01_from_ids PROVES that no registered key continues another one by a byte <= 0x01 (no_ext01), which is what lemma_c19_next_page needs. The factory itself does not validate denom characters, so this stays a hypothesis about the chain',
                  'registry well-formedness (every record stored under the key of its own assets) is the invariant established under C16 / C17 (lemma_registry_wf_preserved)',
                  'the walker continues with the asset_infos of the last pair of the previous page, as the statement says'],
     explanation='read_pairs is verified: the page limit is min(limit or 10, 30); the cursor is pair_key(start_after) ++ [1], exclusive (calc_range_start, closure verified against its real body); the page is the first min(limit, remaining) records, in ascending key order, above the cursor, each mapped by to_normal (closure verified). query_pairs converts the cursor with to_raw and passes everything through; the query entry point serialises exactly that answer. Pure lemmas: the cursor built from the last returned pair is that pair\'s stored key (lemma_cursor_of_last, via registry_wf and canonicalize o humanize = id); under no_ext01 no key lies in (k, k ++ [1]] (lemma_gap, lemma_no_gap), so the next page resumes exactly at the following index (lemma_cursor_split, lemma_split_unique); by induction the concatenation of the pages is the whole ascending listing (lemma_walk_complete), which has no duplicates (lemma_sorted_no_dup).',
